@@ -62,6 +62,7 @@ type H struct {
 	fenceLen      int   // len(shadow) when NewTerm answered
 	terms         map[int64]*termInfo
 	reported      map[int64][2]int64 // head reported in the NewTerm response, by term
+	ackedIn       map[int64]int64    // highest offset acknowledged on a stream of the term
 	hasReported   map[int64]bool
 	acts          []string
 	outs          []string
@@ -79,7 +80,7 @@ func newH(o *hx.Out) *H {
 	dir, err := os.MkdirTemp(base, "node-")
 	hx.Must(err)
 	h := &H{o: o, dir: dir, streams: map[int]*streamH{}, terms: map[int64]*termInfo{}, viol: map[string]string{},
-		reported: map[int64][2]int64{}, hasReported: map[int64]bool{}, writeRes: map[int]bool{}, refused: map[int]string{}, fencedTerm: -1, adv: 0}
+		ackedIn: map[int64]int64{}, reported: map[int64][2]int64{}, hasReported: map[int64]bool{}, writeRes: map[int]bool{}, refused: map[int]string{}, fencedTerm: -1, adv: 0}
 	h.kvf, err = kv.NewPebbleKVFactory(&kv.FactoryOptions{DataDir: dir + "/db", CacheSizeMB: 1})
 	hx.Must(err)
 	h.realWf = wal.NewWalFactory(&wal.FactoryOptions{BaseWalDir: dir + "/wal", SegmentSize: 256 * 1024, Retention: time.Hour, SyncData: true})
@@ -153,6 +154,9 @@ func (h *H) onAck(s *streamH, off int64) {
 	h.mu.Lock()
 	defer h.mu.Unlock()
 	h.acks = append(h.acks, ackRec{s.sid, off})
+	if cur, ok := h.ackedIn[s.term]; !ok || off > cur {
+		h.ackedIn[s.term] = off
+	}
 	// a negative term = a stream that does not announce its term (pre-term-metadata leaders): assumed away
 	if s.term >= 0 && s.term < h.fencedTerm {
 		h.violate("fenced:ack-after-newterm-for-old-term",
@@ -496,6 +500,15 @@ func (h *H) doNewTermRacingWrite(t, p int64) {
 func entLeq(e ent, t, o int64) bool { return e.term < t || (e.term == t && e.off <= o) }
 
 func (h *H) doTruncate(t, ht, ho int64) {
+	// status of the follower controller before the request (a controller created by the request starts FENCED or NOT_MEMBER)
+	statusBefore := ""
+	if v := strings.Split(h.statusView(), ","); v[0] == "F" && len(v) >= 3 {
+		statusBefore = v[2]
+	}
+	h.mu.Lock()
+	shadowBefore := append([]ent(nil), h.shadow...)
+	ackedBefore, hasAcked := h.ackedIn[t]
+	h.mu.Unlock()
 	resp, err := h.rpc.Truncate(context.Background(), &proto.TruncateRequest{Namespace: namespace, Shard: shardId, Term: t,
 		HeadEntryId: &proto.EntryId{Term: ht, Offset: ho}})
 	res := errKind(err)
@@ -503,6 +516,29 @@ func (h *H) doTruncate(t, ht, ho int64) {
 		res = fmt.Sprintf("head:%d:%d", resp.HeadEntryId.Term, resp.HeadEntryId.Offset)
 		h.termActionAccepted(t)
 		h.mu.Lock()
+		// Truncate is only legal while FENCED (TLA+ NodeHandlesTruncateRequest; afterwards the node follows the leader of
+		// the term and what it acknowledged must stay)
+		if statusBefore != "" && statusBefore != "fenced" {
+			h.violate("truncate:accepted-while-following", fmt.Sprintf(
+				"Truncate(term %d, head (%d,%d)) answered OK although the node was %s (log before %v, after %v)",
+				t, ht, ho, strings.ToUpper(statusBefore), shadowBefore, h.shadow))
+		}
+		// ... and then it may cut what the node already acknowledged to the leader it follows (a FENCED node, e.g. after a
+		// restart, may legitimately be truncated by whatever the leader asks for)
+		if hasAcked && statusBefore != "" && statusBefore != "fenced" {
+			kept := map[ent]bool{}
+			for _, e := range h.shadow {
+				kept[e] = true
+			}
+			for _, e := range shadowBefore {
+				if !kept[e] && e.off <= ackedBefore {
+					h.violate("truncate:cut-acknowledged-entry", fmt.Sprintf(
+						"Truncate(term %d, head (%d,%d)) removed %v although offset %d had been acknowledged to the leader of term %d (node status before: %s)",
+						t, ht, ho, e, ackedBefore, t, statusBefore))
+					break
+				}
+			}
+		}
 		regress := false
 		for _, e := range h.shadow {
 			if !entLeq(e, ht, ho) {
